@@ -67,6 +67,7 @@ def generate(rng, focus, tier="quick"):
         "start": start, "universe_kind": uk,
         "quotes0": dict((a, _quote(rng, low=rng.random() < 0.25)) for a in assets),
         "np_quotes": rng.random() < 0.5,
+        "np_str": rng.random() < 0.15,
     }
     n_reb = rng.randrange(2, 9)
     enabled = set(k for k in FAULTS if rng.random() < 0.6)
@@ -215,6 +216,30 @@ def _run(plan, ctx):
     from qstrader.asset.universe.dynamic import DynamicUniverse
     from .. import sessionlib as sl
     cfg = plan["cfg"]
+    if cfg.get("np_str"):
+        # symbols that are a str subclass (numpy.str_, as np.char.add('EQ:', tickers) would give)
+        import copy as _copy
+        import numpy as _np
+        plan = _copy.deepcopy(plan)
+        cfg = plan["cfg"]
+        S_ = lambda a: _np.str_(a)
+        cfg["assets"] = [S_(a) for a in cfg["assets"]]
+        if "universe" in cfg:
+            cfg["universe"] = [S_(a) for a in cfg["universe"]]
+        if "entries" in cfg:
+            cfg["entries"] = dict((S_(a), e) for a, e in cfg["entries"].items())
+        cfg["quotes0"] = dict((S_(a), q) for a, q in cfg["quotes0"].items())
+        for op in plan["ops"]:
+            if "asset" in op:
+                op["asset"] = S_(op["asset"])
+            if "nan" in op:
+                op["nan"] = S_(op["nan"])
+            for key in ("weights", "weights2"):
+                if key in op:
+                    op[key] = dict((S_(a), v) for a, v in op[key].items())
+            if "universe" in op:
+                op["universe"] = [S_(a) for a in op["universe"]]
+        ctx.probe("numpy_string_symbols")
     qb = QuoteBook(numpy_floats=cfg.get("np_quotes", False))
     for a, (b, k) in sorted(cfg["quotes0"].items()):
         qb.set(a, b, k)
